@@ -405,7 +405,12 @@ def run_files(ctx, faults=False):
     nread = 1 + tape.weighted([3, 1], "nreaders")
     fspecs, rss, models = [], [], []
     for i in range(nread):
-        if i == 1 and "seed" in fspecs[0] and tape.chance(1, 2, "f1.sibling"):
+        if i == 1 and "lsb" in fspecs[0] and tape.chance(1, 4, "f1.samefile"):
+            # the SAME file read with different reader options (sideband flags)
+            other = [x for x in ("no", "all", "mask") if x != fspecs[0]["lsb"]]
+            fs = dict(fspecs[0], lsb=other[tape.draw(len(other), "f1.samefile.lsb")])
+            ctx.probe("two_readers_same_file_different_options")
+        elif i == 1 and "seed" in fspecs[0] and tape.chance(1, 2, "f1.sibling"):
             # a sibling: same class and geometry, different content
             fs = dict(fspecs[0], seed=(fspecs[0]["seed"] + 1 + tape.draw(7, "f1.sibseed")) % 4096)
             ctx.probe("sibling_readers_same_geometry")
